@@ -55,6 +55,15 @@ CORPUS = [
     ("Unwrap", "et", "none", "raw", "none", "plain"),
     ("TryUnwrap", "et", "none", "raw", "none", "plain"),
     ("Mul", "em", "none", "plain", "forward", "plain"),
+    ("Display", "ew", "T", "plain", "shared-wrap", "plain"),
+    ("Binary", "ew", "'a,T,N", "plain", "shared-wrap-arg", "plain"),
+    ("Display", "es", "T", "plain", "shared-wrap", "plain"),
+    ("Display", "ed", "T,U", "plain", "shared-default", "plain"),
+    ("Error", "en", "none", "plain", "variant-ignore", "plain"),
+    ("Error", "en", "'a,T,N", "plain", "variant-ignore", "plain"),
+    ("Error", "em", "T", "plain", "variant-ignore", "plain"),
+    ("Error", "en", "N", "plain", "variant-ignore-all-but-one", "plain"),
+    ("Error", "en", "T", "plain", "none", "plain"),
     ("Octal", "n2", "T", "raw", "fmt", "plain"),
     ("Display", "n2", "T", "raw", "fmt", "plain"),
 ]
